@@ -106,7 +106,9 @@ func c18FlagStores(c *Ctx, prog *load.Program) {
 				_, isConst := st.Val.(*ssa.Const)
 				switch {
 				case isConst && hasTrue:
-					if constructors[fn.String()] {
+					if ok, why := c18AssertedBefore(prog, fn, st); ok {
+						c.R.OK("C18-1a", key, pos, "stores true after asserting the validity flag of every other Point operand ("+why+"): the value is the conjunction of the operands' flags")
+					} else if constructors[fn.String()] {
 						c.R.OK("C18-1a", key, pos, "stores true inside a validated constructor")
 					} else if ok, why := onlyCalledFrom(prog, fn, constructors, 0); ok {
 						c.R.OK("C18-1a", key, pos, "stores true inside an unexported helper that only the validated constructors call ("+why+")")
@@ -123,6 +125,77 @@ func c18FlagStores(c *Ctx, prog *load.Program) {
 	}
 	c.R.Floor("C18-1a", 8)
 	_ = sites
+}
+
+// c18AssertedBefore: the store of `true` into the flag of the Point that parameter w points to is dominated by a call of
+// assertPointsValid (rule C18-1b decides that it returns exactly when every listed flag is set) listing every other
+// *Point parameter of the function - on every path that reaches the store `true` is the conjunction of their flags.
+func c18AssertedBefore(prog *load.Program, fn *ssa.Function, st *ssa.Store) (bool, string) {
+	fa, ok := st.Addr.(*ssa.FieldAddr)
+	if !ok || fn.Parent() != nil {
+		return false, ""
+	}
+	written, isParam := fa.X.(*ssa.Parameter)
+	if !isParam {
+		return false, ""
+	}
+	isPointPtr := func(t types.Type) bool { return isNamedPtr(t, models.PointType) }
+	isPointSlice := func(t types.Type) bool {
+		sl, ok := t.Underlying().(*types.Slice)
+		return ok && isPointPtr(sl.Elem())
+	}
+	need := map[ssa.Value]bool{}
+	for _, p := range fn.Params {
+		if p != written && isPointPtr(p.Type()) {
+			need[p] = true
+		} else if p != written && isPointSlice(p.Type()) {
+			return false, ""
+		}
+	}
+	if len(need) == 0 {
+		return false, ""
+	}
+	asserted := map[ssa.Value]bool{}
+	for _, b := range fn.Blocks {
+		for _, in := range b.Instrs {
+			call, isCall := in.(*ssa.Call)
+			if !isCall || call.Common().StaticCallee() == nil || call.Common().StaticCallee().String() != models.Mod+".assertPointsValid" {
+				continue
+			}
+			if !b.Dominates(st.Block()) || (b == st.Block() && !instrBefore(call, st)) {
+				continue
+			}
+			// the variadic list: a slice of a local array whose elements are stored individually
+			for _, a := range call.Common().Args {
+				sl, isSl := a.(*ssa.Slice)
+				if !isSl {
+					continue
+				}
+				arr, isA := sl.X.(*ssa.Alloc)
+				if !isA {
+					continue
+				}
+				for _, r := range *arr.Referrers() {
+					if ia, isIA := r.(*ssa.IndexAddr); isIA {
+						for _, rr := range *ia.Referrers() {
+							if s2, isSt := rr.(*ssa.Store); isSt && s2.Addr == ssa.Value(ia) {
+								asserted[s2.Val] = true
+							}
+						}
+					}
+				}
+			}
+		}
+	}
+	var names []string
+	for p := range need {
+		if !asserted[p] {
+			return false, ""
+		}
+		names = append(names, p.Name())
+	}
+	sort.Strings(names)
+	return true, "assertPointsValid(" + strings.Join(names, ", ") + ")"
 }
 
 // onlyCalledFrom: fn is unexported, never used as a value, and each of its call sites lies in one of the allowed
@@ -281,6 +354,52 @@ func c18Asserts(c *Ctx, prog *load.Program) {
 				c.R.Decide(len(r.Ex.Returns) == 0 && uninit > 0, "C18-1b", key, pos, "with this operand's validity flag cleared no path returns: the call panics with 'use of uninitialized Point'", fmt.Sprintf("an uninitialised Point is accepted as this operand: %d returning paths, %d uninitialised-point panics", len(r.Ex.Returns), uninit))
 			}
 		}
+	}
+	// every Point operand the same uninitialised object (receiver included): a same-object shortcut taken before the
+	// assertion would accept it
+	for _, fn := range fns {
+		var ptIdx []int
+		hasList := false
+		for i, p := range fn.Params {
+			if isPointPtr(p.Type()) {
+				ptIdx = append(ptIdx, i)
+			}
+			if isPointSlice(p.Type()) {
+				hasList = true
+			}
+		}
+		isMethod := fn.Signature.Recv() != nil
+		recvIsOutput := isMethod && fn.Signature.Results().Len() >= 1 && isPointPtr(fn.Signature.Results().At(0).Type())
+		operands := len(ptIdx)
+		if recvIsOutput {
+			operands--
+		}
+		if hasList || len(ptIdx) < 2 || operands < 1 {
+			continue
+		}
+		key := fmt.Sprintf("assert/%s/all-aliased", shortFn(fn))
+		r := RunFn(prog, fieldSet(), fn.String(), &RunOpts{Pre: func(ex *absint.Exec, st *absint.State, args []absint.Val) {
+			first, ok := args[ptIdx[0]].(*absint.Ptr)
+			if !ok {
+				return
+			}
+			ex.StoreLeaf(st, ex.FieldPtr(first, iv), sym.ConstBool(false), 0)
+			for _, i := range ptIdx[1:] {
+				args[i] = first
+			}
+		}})
+		pos := PosOf(prog, fn)
+		if r.Err != nil || len(r.Ex.Fails) > 0 {
+			c.R.Unknown("C18-1b", key, pos, r.Problem())
+			continue
+		}
+		uninit := 0
+		for _, p := range r.Ex.Panics {
+			if strings.Contains(p.Msg, "uninitialized Point") {
+				uninit++
+			}
+		}
+		c.R.Decide(len(r.Ex.Returns) == 0 && uninit > 0, "C18-1b", key, pos, "with one uninitialised Point as every operand no path returns", fmt.Sprintf("an uninitialised Point is accepted when it is every operand at once: %d returning paths, %d uninitialised-point panics", len(r.Ex.Returns), uninit))
 	}
 	c.R.Floor("C18-1b", 22)
 	// the assertion helper itself
